@@ -72,6 +72,7 @@ def observe(sp, xml, binding=env.BINDING_POST, outstanding=None, conv_info=None,
                 obs['ava'] = dict((k, list(v)) for k, v in ava.items()) if ava else {}
                 obs['verdict'] = 'accept' if (obs['name_id'] or obs['ava']) else 'noid'
                 obs['came_from'] = getattr(resp, 'came_from', None)
+                obs['in_response_to'] = getattr(resp, 'in_response_to', None)
                 try:
                     si = resp.session_info()
                     obs['nooa'] = si.get('not_on_or_after')
